@@ -7,6 +7,8 @@ Replaces what the *environment* gives to nfc.llcp.llc / nfc.llcp.tco:
   notifies it" - raises `WouldBlock`, and `wait(timeout)` returns False at
   once (virtual time-out).  Everything done before the wait (PDU queued,
   state changed) stays done, exactly as while a real thread sleeps there.
+  `while_waiting(fn)` lets one such call continue: fn (the link exchange)
+  runs inside the wait, then the call resumes.
 * `random.choice` (transaction id of a service discovery request): the first
   element, deterministic in both modes.
 
@@ -22,10 +24,28 @@ class WouldBlock(Exception):
     """a blocking call reached Condition.wait() without time-out"""
 
 
+class WhileWaiting(object):
+    """one-shot hook: what the rest of the system (the link thread, the
+    peer) does while the next blocking call sleeps.  With a hook set, the
+    next wait() without time-out runs it and then returns as if notified -
+    one legal schedule of "application thread sleeps, link thread runs" -
+    so the code *after* the wait (e.g. the CC handling of connect()) is
+    executed.  Without a hook wait() raises WouldBlock as before."""
+    fn = None
+
+
+def while_waiting(fn):
+    WhileWaiting.fn = fn
+
+
 class EventCondition(_threading.Condition):
     def wait(self, timeout=None):
         if timeout is None:
-            raise WouldBlock()
+            fn, WhileWaiting.fn = WhileWaiting.fn, None
+            if fn is None:
+                raise WouldBlock()
+            fn()
+            return True
         return False
 
     def wait_for(self, predicate, timeout=None):
